@@ -54,6 +54,10 @@ Fixpoint latest (h : list decl) (c t : str) : option dec :=
     end
   end.
 
+(* names for the check's decimal operation (extraction renames Dec.div / Dec.mul) *)
+Definition dec_div16 (a b : dec) : dresult dec := div a b.
+Definition dec_mul (a b : dec) : dec := mul a b.
+
 (* ---- paths of stored edges.  A path from v is the list of the commodities after v; its value
    multiplies the stored prices left to right, truncating to 8 decimals at each step. *)
 Fixpoint path_value (ps : prices) (cur : str) (acc : dec) (path : list str) : option dec :=
